@@ -1,5 +1,5 @@
-(* C11 -- IPv4/IPv6 objects agree with the standard library.  Numeric layer: the derived integer values of IPv4Obj / IPv6Obj (network = addr AND netmask, netmask/hostmask complement, broadcast/last = network + hostmask, bounds, numhosts); gen_* are regenerated from /repo on every run.  Textual layer, IPv4: v4_parse (Model/IPText.v) mirrors the constructor's regex alternatives and ipaddress's validation; every accepted spelling (render4 f a p with any surrounding blanks) parses to (a, p), and whatever parses is in range.  The IPv6 textual layer is decided by the three-way differential tie against Python's ipaddress (design/C11.md). *)
-From Coq Require Import ZArith List NArith. Require Import CCP.Lib.Res CCP.Lib.PyStr CCP.Model.IPRef CCP.Model.IPText CCP.gen.GenIP CCP.Proofs.C11Proofs CCP.Proofs.IPTextProofs. Import ListNotations. Open Scope Z_scope.
+(* C11 -- IPv4/IPv6 objects agree with the standard library.  Numeric layer: the derived integer values of IPv4Obj / IPv6Obj (network = addr AND netmask, netmask/hostmask complement, broadcast/last = network + hostmask, bounds, numhosts); gen_* are regenerated from /repo on every run.  Textual layer, IPv4: v4_parse (Model/IPText.v) mirrors the constructor's regex alternatives and ipaddress's validation; every accepted spelling (render4 f a p with any surrounding blanks) parses to (a, p), and whatever parses is in range.  Textual layer, IPv6: v6_parse (Model/IPText6.v) transcribes ipaddress's IPv6 parser and IPv6Obj's input handling; whatever parses is in range (v6_parse_sound), and every uncompressed eight-group text in any hextet spelling (lower/upper case minimal, zero padded: spellings), with or without /len and surrounding blanks, parses to (value_of groups, len) (v6_parse_full).  Compressed '::' and embedded-IPv4 forms are decided by the v6text correspondence stream and the differential tie against Python's ipaddress (design/C11.md). *)
+From Coq Require Import ZArith List NArith. Require Import CCP.Lib.Res CCP.Lib.PyStr CCP.Model.IPRef CCP.Model.IPText CCP.Model.IPText6 CCP.gen.GenIP CCP.Proofs.C11Proofs CCP.Proofs.IPTextProofs CCP.Proofs.IPText6Proofs. Import ListNotations. Open Scope Z_scope.
 
 Theorem C11_v6_network_is_and :
   forall o, wf 128 o -> netw 128 o = Z.land (addr o) (netmask 128 o).
@@ -80,3 +80,23 @@ Theorem C11_v4_parse_sound :
   forall s a p, v4_parse s = Some (a, p) -> (0 <= a < 2 ^ 32)%Z /\ (0 <= p <= 32)%Z.
 Proof. exact v4_parse_sound. Qed.
 Print Assumptions C11_v4_parse_sound.
+
+Theorem C11_v6_addr_range :
+  forall s v, v6_addr s = Some v -> (0 <= v < 2 ^ 128)%Z.
+Proof. exact v6_addr_range. Qed.
+Print Assumptions C11_v6_addr_range.
+
+Theorem C11_v6_parse_sound :
+  forall s a p, v6_parse s = Some (a, p) -> (0 <= a < 2 ^ 128)%Z /\ (0 <= p <= 128)%Z.
+Proof. exact v6_parse_sound. Qed.
+Print Assumptions C11_v6_parse_sound.
+
+Theorem C11_v6_parse_full :
+  forall sp g0 g1 g2 g3 g4 g5 g6 g7 p (with_len : bool) pre post, spelling sp -> Forall (fun g => (g < 65536)%N) [g0; g1; g2; g3; g4; g5; g6; g7] -> (0 <= p <= 128)%Z -> forallb is_space pre = true -> forallb is_space post = true -> v6_parse (pre ++ (full_text sp [g0; g1; g2; g3; g4; g5; g6; g7] ++ (if with_len then [c_slash] ++ render_dec (Z.to_N p) else [])) ++ post) = Some (value_of [g0; g1; g2; g3; g4; g5; g6; g7], if with_len then p else 128%Z).
+Proof. exact v6_parse_full. Qed.
+Print Assumptions C11_v6_parse_full.
+
+Theorem C11_spellings :
+  spelling (sp_min false) /\ spelling (sp_min true) /\ spelling sp_pad.
+Proof. exact spellings. Qed.
+Print Assumptions C11_spellings.
